@@ -200,6 +200,7 @@ func c02Gen(c *Ctx) {
 	parseWidth(c)
 	ptrToPtrKeepsNull(c)
 	decoderUsesNumber(c)
+	layoutAgreement(c)
 }
 
 // errorFlow classifies what happens to the error result of call in fn:
